@@ -100,7 +100,7 @@ func writeManifest(root string) {
 		"setup_cmd": "./setup.sh",
 		"hooks": map[string]any{
 			"guard":            "verif",
-			"enable":           "go1.26.8 test -c -tags verif ./engines/<engine> (module verif, replace github.com/mutagen-io/mutagen => /repo); GOFLAGS=-mod=mod GOPROXY=off GOSUMDB=off GOTOOLCHAIN=local",
+			"enable":           "go1.26.8 test -c -tags 'verif verifruntime' -overlay .build/overlay/overlay.json ./engines/<engine> (module verif, replace github.com/mutagen-io/mutagen => /repo); the overlay, written by cmd/check at build time, holds (a) copies of five Go runtime files with a seeded select order and seeded map iteration and (b) copies of pkg/state, pkg/prompting and pkg/filesystem/locking of the current tree with automatically inserted verif.Yield calls; neither the toolchain nor /repo is modified; GOFLAGS=-mod=mod GOPROXY=off GOSUMDB=off GOTOOLCHAIN=local",
 			"baseline_off_cmd": "cd /repo && go test -mod=mod -json -vet=off -count=1 -timeout 25m ./...",
 			"source_commits":   hookCommits,
 			"add_only":         true,
@@ -116,7 +116,7 @@ func writeManifest(root string) {
 	}
 }
 
-var hookCommits = []string{"a713816", "3772002", "7d61760", "d33e9eb", "d4ec52f", "6a5991e", "cd138aa"}
+var hookCommits = []string{"a713816", "3772002", "7d61760", "d33e9eb", "d4ec52f"}
 
 var engineKinds = map[string]string{
 	"wiresim": "byte streams and transports under fragmentation, short I/O and injected failure (rsync, framing, handshakes, logging, stream writers)",
